@@ -727,6 +727,12 @@ impl<'a> BInterp<'a> {
                 let r = catch_unwind(AssertUnwindSafe(|| root.copy_to_bytes(n)));
                 match r {
                     Ok(bts) => {
+                        if digest_mode() {
+                            // whether the result shares storage with the tree (zero-copy through every forwarding layer) is a return
+                            // value of a later call (is_unique / try_into_mut / try_reclaim): it must not depend on the configuration
+                            let shared = !bts.is_unique();
+                            self.mix(0xC0B0 ^ shared as u64);
+                        }
                         if n <= rem && bts[..] != rest[..n] {
                             self.v("C09", "copy_to_bytes-bytes", format!("returned {:02x?} (len {}), next bytes are {:02x?}", &bts[..bts.len().min(12)], bts.len(), &rest[..n.min(12)]));
                         self.adapter_bytes_c12("copy_to_bytes-bytes");
